@@ -907,12 +907,13 @@ class Gen:
                 # an invalid token followed by a perfectly valid third-party attestation
                 att, auth = mk_attestation(w, x, meta.get_hash()), frame_auth(w, [x])
                 w.ctx.count("craft:taint:+valid-attestation")
+            at = rng.randint(0, len(toks))       # anywhere: before, between or after the real tokens
             if taint == "garbage-token":
-                toks.append(rng.randbytes(TOKSZ))
+                toks.insert(at, rng.randbytes(TOKSZ))
             elif taint == "foreign-token":
-                toks.append(mk_token(w, x, w.genesis[a], h2))
+                toks.insert(at, mk_token(w, x, w.genesis[a], h2))
             elif taint == "orphan-token":
-                toks.append(mk_token(w, a, rng.randbytes(32), h2))
+                toks.insert(at, mk_token(w, a, rng.randbytes(32), h2))
             elif taint == "foreign-metadata":
                 # the same statement about a's token, but signed by somebody else
                 mdblob = mk_metadata(w, x, meta.token_pointer, meta.serialized_json_dict)
@@ -1151,7 +1152,7 @@ def run_matrix(ctx: Ctx, use_model: bool):
     loop = vclock.new_loop()
     try:
         combos = itertools.product([False, True], [True, False], [None, {}, {"a": "b"}], [None, {"a": "b"}, {"a": "c"}],
-                                   [0, 299, 300, 301], [False, True])
+                                   [0, 299, 300, 301], [False, True] if ctx.thorough() or ctx.searching else [False])
         for i, combo in enumerate(combos):
             w = loop.run_until_complete(run_matrix_world(ctx, loop, use_model, combo, 1000 + i))
             if use_model:
@@ -1173,7 +1174,7 @@ def run(ctx: Ctx):
     if ctx.replay_input is not None:
         return replay(ctx, ctx.replay_input)
     run_matrix(ctx, ctx.model_ok)
-    run_worlds(ctx, ctx.scale(300, 4000), ctx.model_ok)
+    run_worlds(ctx, ctx.scale(250, 3000), ctx.model_ok)
 
 
 def search(ctx: Ctx, reason: str):
